@@ -36,6 +36,8 @@ def run(args):
             outcome[key] = outcome.get(key, 0) + 1
             if real.startswith("ok"):
                 continue
+            if "[in-fstring-interpolation]" in real and ctx.known("C11-fstring-interpolation-span-not-in-file-coordinates"):
+                continue
             failures.append({"request": " ".join(p[:4]), "input_hex": p[4] if len(p) > 4 else "-", "real": real,
                              "why": "front end panicked, aborted, did not terminate, or produced an ill-formed diagnostic"})
         for req, real in render:
